@@ -110,6 +110,50 @@ def generic_rules(ctx) -> None:
             ctx.chk.ok(f"{ctx.chk.prop}.guard-conjunction", "anchor modules", f"{g} raising guards scanned; none combines inequalities on different subjects with `and`")
 
 
+def thorough_extras(ctx) -> None:
+    """Thorough tier: (a) the generic idiom rules swept over the WHOLE package (reported, armed only on anchor modules);
+    (b) checker sensitivity: every stored breaking change of this property must fire, every behaviour-preserving mutator must
+    stay silent. (b) is about the checker, not about /repo: its result is recorded in the evidence and printed, a failure is an
+    ANALYSIS-ERROR (the checker lost sensitivity/robustness), never a VIOLATION."""
+    import contextlib
+    import io
+    from .core.report import Check
+    from .engines import generic2, guardconj, latebind, superflow
+    prop = ctx.chk.prop
+    allmods = [m.relpath for m in ctx.prog.modules.values()]
+    anchors = set(anchor_py_files(prop, ctx.repo))
+    rest = [m for m in allmods if m not in anchors]
+    shadow = Check(prop, ctx.tier, ctx.repo.root)
+    real, ctx.chk = ctx.chk, shadow
+    try:
+        n = superflow.check(ctx, "sweep.override-forwarding", rest) + latebind.check(ctx, "sweep.late-binding", rest) + guardconj.check(ctx, "sweep.guard-conjunction", rest)
+        n += generic2.manual_align(ctx, "sweep.manual-align", rest) + generic2.signed_formats(ctx, "sweep.signed-format", rest)
+    finally:
+        ctx.chk = real
+    for f in shadow.findings:
+        ctx.chk.report(f"package sweep (not armed outside the anchors): {f.rule} {f.construct}: {f.what[:160]}")
+    ctx.chk.extra["package_sweep"] = {"sites": n, "reported": len(shadow.findings), "modules": len(rest)}
+    from .regress import collect, _one
+    from .mutate import MUTATORS, _one as _mut
+    from concurrent.futures import ProcessPoolExecutor
+    items = [(k, nme, p, f, ctx.repo.root) for k, nme, p, f in collect([prop]) if p == prop]
+    work = [(m, prop, ctx.repo.root) for m in MUTATORS]
+    buf = io.StringIO()
+    with contextlib.redirect_stdout(buf), ProcessPoolExecutor(max_workers=16) as ex:
+        res = list(ex.map(_one, items))
+        mres = list(ex.map(_mut, work))
+    fired = [r for r in res if r[0] != "benign" and r[3] == 1]
+    missed = [r[1] for r in res if r[0] != "benign" and r[3] != 1]
+    ref_known = sorted(l for l in ctx.chk.lines if l.startswith("KNOWN-FINDING")) if hasattr(ctx.chk, "lines") else None
+    alarms = [m for m, _p, rc, _k, _b in mres if rc != 0]
+    ctx.chk.extra["checker_sensitivity"] = {"breaking_changes": len(fired) + len(missed), "fired": len(fired), "missed": missed,
+                                            "behaviour_preserving_mutants": len(mres), "silent": len(mres) - len(alarms), "alarms": alarms}
+    print(f"[{prop}] thorough: package sweep {n} sites ({len(shadow.findings)} reported); sensitivity {len(fired)}/{len(fired) + len(missed)} breaking changes fire, "
+          f"{len(mres) - len(alarms)}/{len(mres)} behaviour-preserving mutants silent")
+    if missed or alarms:
+        ctx.chk.analysis_errors.append(f"checker sensitivity lost: missed {missed}, mutant alarms {alarms}")
+
+
 def load_known() -> List[dict]:
     p = os.path.join(VERIF, "known_findings.json")
     if not os.path.exists(p):
@@ -127,6 +171,8 @@ def run_prop(prop: str, tier: str, root: str, overlays: Optional[Dict[str, str]]
         ctx = Ctx(prop, tier, root, overlays)
         mod.run(ctx)
         ctx.rule(generic_rules)
+        if tier == "thorough" and overlays is None:
+            ctx.rule(thorough_extras)
         ctx.chk.extra["package_units_parsed"] = len(ctx.repo.consulted)
         rc = ctx.chk.finish(load_known(), write=write)
     except AnalysisError as e:
